@@ -54,6 +54,21 @@ CHECKS = {
             'density matrix of every rank and all arguments x every pure state; get_prob on all bit strings (sum to one); receiver/argument snapshots; torch port.',
             'expect(state) on a mixed receiver raises NotImplementedError = abstention; bounded to N<=2 (N=3 supplementary in thorough).',
             '3/C07'),
+    'C12': ('exhaustive enumeration of maps (N<=2, all signs), of all ordered independent commuting signed stabilizer lists (N<=3) and of constructor coin strings on the real code vs explicit density matrices',
+            'to_state / zero_state.transform_by / to_map round trip / to_state(r) for all 11520 maps; zero, one, GHZ, maximally mixed for N<=4 vs explicit '
+            'matrices; random_bit_state over all coin strings, random_pauli_state over the coin tree; to_qutip of tableaux N<=2; stabilizer_state on every '
+            'ordered independent commuting list of N<=3 with sign patterns in three input formats (projector onto the joint +1 eigenspace, r=N-L); every '
+            'anticommuting pair raises ValueError; torch port.',
+            'Dependent lists / non-Hermitian phases are out of scope; N=3 L=3 lists use 4 sign patterns (quick: a quarter of the lists).',
+            '3/C12'),
+    'C14': ('stateless exhaustive exploration of (program, input, coin string) triples of Circuit with mid-circuit measurement on the real code vs dense trajectory, direct measurement and layer-order invariant',
+            'All programs up to length 2 (3 thorough) over a 9-letter alphabet with four measurement letters from one input per density matrix (all ranks), '
+            'longer programs on a rotating input subset, compiled and plain, single-measurement programs from all 34560 tableaux, an N=3 family; every coin '
+            'string; record, log2prob, final state and rank vs the density-matrix trajectory and vs step-by-step StabilizerState.measure; layer-order '
+            'invariant after construction; postselect on all pure tableaux x signed observables x outcomes; Circuit.backward with the recorded and every '
+            'alternative record (adjoint trajectory or ValueError exactly when impossible); accumulation across repeated forward calls.',
+            'Backward/postselect on pure states only (the library refuses mixed ones); bounded program length.',
+            '3/C14'),
 }
 
 NOT_BUILT_REASON = 'check not built yet in this session (planned: DESIGN.md section 3); model checking applies'
